@@ -116,3 +116,7 @@ Qed.
 Print Assumptions c05_next_is_first_free.
 (* wrap-around in action *)
 Example wrap : next_msgid (MAX - 1) [MAX; 1; 2; 5] = Found 3. Proof. vm_compute. reflexivity. Qed.
+
+(* the allocation observed on the unchanged code with the id table set to (MAX - 1, {MAX, 1, 2}) through the hook: the next id is 3 *)
+Example c05_probe_wrap : next_msgid (MAX - 1) [MAX; 1; 2] = Found 3.
+Proof. vm_compute. reflexivity. Qed.
